@@ -35,7 +35,7 @@ func (e *Expr) String() string {
 	switch e.Op {
 	case "id":
 		return e.Name
-	case "int":
+	case "int", "real":
 		return e.Int
 	case "str":
 		return strconv.Quote(e.Str)
@@ -113,6 +113,15 @@ func lex(src string) ([]tok, error) {
 			j := i + 1
 			for j < len(src) && (unicode.IsDigit(rune(src[j])) || unicode.IsLetter(rune(src[j])) || src[j] == '_') {
 				j++
+			}
+			if j+1 < len(src) && src[j] == '.' && src[j+1] >= '0' && src[j+1] <= '9' {
+				k := j + 1
+				for k < len(src) && src[k] >= '0' && src[k] <= '9' {
+					k++
+				}
+				toks = append(toks, tok{"real", src[i:k], i})
+				i = k
+				continue
 			}
 			txt := strings.ReplaceAll(src[i:j], "_", "")
 			v, err := strconv.ParseInt(txt, 0, 64)
@@ -520,6 +529,8 @@ func (ps *eparser) parsePrimary() *Expr {
 		return &Expr{Op: "int", Int: t.text, Pos: t.pos}
 	case "str":
 		return &Expr{Op: "str", Str: t.text, Pos: t.pos}
+	case "real":
+		return &Expr{Op: "real", Int: t.text, Pos: t.pos}
 	case "id":
 		switch t.text {
 		case "true", "false":
